@@ -645,7 +645,11 @@ class RecordContextMatcher:
 
                 # Special case for __contains__, where we need to first unwrap all values matching the Type query
                 if comptype in (ast.In, ast.NotIn) and isinstance(left, TypeMatcherInstance):
-                    result = any(comp(v, right) for v in left._values())
+                    # Same meaning as in Python (and the compiled selector): a value of a matching field, fields of
+                    # nested records included, is in the container; `not in` is the negation of that
+                    result = left._op(lambda value, container: value in container, right)
+                    if comptype is ast.NotIn:
+                        result = not result
                 else:
                     result = comp(left, right)
 
